@@ -260,6 +260,70 @@ fn use_later<R: Reg>(b: &mut Built<R>, stats: &mut FaultStats) -> Option<String>
     None
 }
 
+/// The second half of "later": the caught worlds are *changed* through the safe API. One entity of
+/// every compiled shape that an entity of the world had is inserted, every identifier ever issued
+/// is removed in issue order (rows are swapped into the holes, so the bookkeeping of every other
+/// row is exercised), the new entities change shape and are observed, and the world is cleared.
+/// Nothing is compared with a model (a caught world need not be consistent); the caller checks the
+/// drop ledger and the allocator afterwards, and every value observed on the way must be live.
+fn mutate_later<R: Reg>(b: &mut Built<R>, stats: &mut FaultStats) -> Option<String> {
+    for w in 0..2 {
+        let Some(slot) = b.interp.slots[w].as_mut() else { continue };
+        let ids: Vec<_> = slot.model.issued.clone();
+        let mut masks: Vec<u32> = Vec::new();
+        for comps in slot.model.ents.values() {
+            let m = comps.iter().enumerate().fold(0u32, |m, (i, c)| if c.is_some() { m | 1 << i } else { m });
+            if !masks.contains(&m) && R::shapes().iter().any(|s| s.0 == m) {
+                masks.push(m);
+            }
+        }
+        masks.sort_unstable();
+        masks.truncate(4);
+        let real = &mut slot.real;
+        let r = catch_unwind(AssertUnwindSafe(|| {
+            let mut bad: Option<String> = None;
+            let mut check = |what: &str, comps: &[Option<vcommon::comps::Obs>]| {
+                for (c, o) in comps.iter().enumerate() {
+                    if let Some(o) = o {
+                        if !o.ok && bad.is_none() {
+                            bad = Some(format!("world {w}: {what} yields, for component {c}, a value that was already dropped or is garbage (payload {}, serial {:#x})", o.payload, o.serial));
+                        }
+                    }
+                }
+            };
+            let mut fresh = Vec::new();
+            for (i, m) in masks.iter().enumerate() {
+                let p: Vec<u32> = (0..R::N).map(|c| R::norm(c, 40_000 + (i * 64 + c) as u32)).collect();
+                fresh.push(R::insert(real, *m, 0, &p));
+            }
+            for id in &ids {
+                R::remove(real, *id);
+            }
+            for (i, id) in fresh.iter().enumerate() {
+                if R::N > 0 {
+                    let c = i % R::N;
+                    R::entry_add(real, *id, c, R::norm(c, 41_000 + i as u32));
+                    R::entry_remove(real, *id, (c + 1) % R::N);
+                }
+                if let Some(comps) = R::entry_snapshot(real, *id) {
+                    check("entry() of an entity inserted after the caught panic", &comps);
+                }
+            }
+            for row in R::snapshot(real) {
+                check("a query after later insertions and removals", &row.comps);
+            }
+            R::clear(real);
+            bad
+        }));
+        match r {
+            Ok(Some(bad)) => return Some(bad),
+            Ok(None) => stats.later_mutations += 1,
+            Err(_) => stats.later_use_panicked += 1,
+        }
+    }
+    None
+}
+
 #[derive(Clone, Debug)]
 pub struct FaultFail {
     pub oracle: &'static str,
@@ -278,6 +342,7 @@ pub struct FaultStats {
     pub excluded: BTreeMap<String, u64>,
     pub later_values_observed: u64,
     pub later_use_panicked: u64,
+    pub later_mutations: u64,
 }
 
 fn callback(i: usize) -> Callback {
@@ -395,6 +460,21 @@ pub fn run_fault_case<R: Reg>(case: &FaultCase, slot: usize, only: Option<(u8, u
                 if let Some(e) = errs.first() {
                     std::mem::forget(b);
                     return fail("double-drop-later", format!("panic in the {k}-th {} call during {}: while the worlds were read afterwards, {e}", CALLBACK_NAMES[kind], case.victim.name()));
+                }
+                // later changes of the worlds through the safe API
+                if let Some(msg) = mutate_later::<R>(&mut b, &mut stats) {
+                    std::mem::forget(b);
+                    return fail("dropped-value-reachable-later", format!("panic in the {k}-th {} call during {}: {msg}", CALLBACK_NAMES[kind], case.victim.name()));
+                }
+                let errs = ledger::take_errors();
+                if let Some(e) = errs.first() {
+                    std::mem::forget(b);
+                    return fail("double-drop-later", format!("panic in the {k}-th {} call during {}: while the worlds were changed afterwards (insert, remove of every identifier, Entry::add/remove, clear), {e}", CALLBACK_NAMES[kind], case.victim.name()));
+                }
+                talloc::check_quarantine();
+                if let Some(d) = talloc::describe(&talloc::errors()) {
+                    std::mem::forget(b);
+                    return fail("memory-later", format!("panic in the {k}-th {} call during {}: while the worlds were changed afterwards, {d}", CALLBACK_NAMES[kind], case.victim.name()));
                 }
                 // the worlds must still be droppable
                 let r = catch_unwind(AssertUnwindSafe(|| drop(b)));
@@ -522,7 +602,8 @@ pub fn run_fault<R: Reg>(cfg: &crate::runner::Config, known: &[String]) -> Fault
                             *l.classes.entry("cases_unusable".into()).or_insert(0) += stats.unusable as u64;
                             *l.classes.entry("injections_on_archetype_with_2plus_columns_and_rows".into()).or_insert(0) += stats.fired_multi;
                             *l.classes.entry("values_observed_through_the_safe_api_after_a_caught_panic".into()).or_insert(0) += stats.later_values_observed;
-                            *l.classes.entry("library_panics_while_reading_a_world_after_a_caught_panic".into()).or_insert(0) += stats.later_use_panicked;
+                            *l.classes.entry("library_panics_while_using_a_world_after_a_caught_panic".into()).or_insert(0) += stats.later_use_panicked;
+                            *l.classes.entry("worlds_changed_through_the_safe_api_after_a_caught_panic".into()).or_insert(0) += stats.later_mutations;
                             if fail.is_none() && stats.fired_multi > 0 {
                                 let mut h2 = std::collections::hash_map::DefaultHasher::new();
                                 serde_json::to_string(&case).unwrap().hash(&mut h2);
